@@ -1,6 +1,7 @@
 import Bolt.Driver.Meta
 import Bolt.Driver.FL
 import Bolt.Driver.Api
+import Bolt.Driver.Store
 open Bolt.Driver
 
 def main (args : List String) : IO UInt32 := do
@@ -8,6 +9,7 @@ def main (args : List String) : IO UInt32 := do
   | ["openmeta", path, os] => cmdOpenMeta path (parseNat os); return 0
   | ["fl"] => cmdFL; return 0
   | ["api"] => cmdApi false; return 0
+  | ["store"] => cmdStore; return 0
   | ["api-verbose"] => cmdApi true; return 0
   | ["decode", path, os] => cmdDecode path (parseNat os) false; return 0
   | ["decode-verbose", path, os] => cmdDecode path (parseNat os) true; return 0
